@@ -1,4 +1,5 @@
 import Driver.Util
 import Driver.Registry
 import Driver.Gated
+import Driver.Dispatch
 import Driver.Main
